@@ -41,7 +41,7 @@ def main():
             detected_by = [r for p in run_checks for r in fired[p]]
         meta = {
             "property": prop,
-            "wave": 2 if "w2" in d else 1,
+            "wave": int(re.search(r"w(\d+)", d).group(1)) if re.search(r"w(\d+)", d) else 1,
             "summary": am.get("summary"),
             "mechanism": am.get("mechanism"),
             "needs": am.get("needs"),
